@@ -66,6 +66,18 @@ def run(chk):
     run_scenarios(chk, 'a failing call on reused workers (kept alive, or started by apply) after a call of the other ordering mode', ru, {'C04', 'C03'},
                   nontrivial=lambda sc, o: bool(o.get('raised')),
                   dist=lambda sc, o: {'first': sc['ops'][0]['op'], 'second': sc['ops'][1]['op'], 'elem': sc['ops'][1]['elem'], 'start': sc['pool']['start_method']})
+    # apply submissions whose worker_init fails in every worker while several jobs are pending: every job reports that error (same
+    # type, args, attributes), nothing else comes out of it
+    ai = []
+    for _ in range(40 if chk.tier == 'quick' else 600):
+        nj = rng.choice([1, 2, 3])
+        k = rng.randint(2, 8)
+        ai.append({'seed': rng.randint(0, 10 ** 6), 'pool': {'n_jobs': nj, 'start_method': rng.choice(['fork', 'threading'])},
+                   'ops': [{'op': 'apply_batch', 'tasks': [{'idx': i, 'gap': rng.choice([0, 0, 0.01])} for i in range(k)], 'init': True, 'init_dur': rng.choice([0.0, 0.02]),
+                            'fail': {'init': 'all', 'exc': rng.choice(['ValueError', 'Custom', 'KeyError'])}, 'dur': {'kind': 'map', 'map': {}, 'default': 0.01},
+                            'get_timeout': 30, 'wait_order': list(range(k))}]})
+    run_scenarios(chk, 'apply submissions whose worker_init fails while several jobs are pending', ai, {'C04', 'C09', 'C03'}, nontrivial=lambda sc, o: True,
+                  dist=lambda sc, o: {'jobs': len(sc['ops'][0]['tasks']), 'start': sc['pool']['start_method']})
     chk.assumptions += ['pickle/dill verdicts are inputs of the model (measured by really serialising)', 'traceback formatting/highlighting is not modelled']
 
     def search():
